@@ -9,7 +9,7 @@ if [ -d "$target" ]; then
   export VERIF_REPO=$target
 else
   git -C /repo apply "$target" || { echo "patch does not apply"; exit 2; }
-  trap 'git -C /repo checkout -- . ' EXIT
+  trap 'git -C /repo apply -R "$target" 2>/dev/null; git -C /repo checkout -- . ' EXIT
 fi
 for p in "$@"; do
   out=$(/verif/bin/simctl check $p --tier ${TIER:-quick} 2>&1); rc=$?
